@@ -7,12 +7,16 @@ Driver module "c17": the executable HTTP model on one request / one header value
   c17 split h:<one char> h:<s>             → ok <;-list of h:>
   c17 urlq h:<target>                      → ok h:<Model.urlQuery target>
   c17 decode h:<codec> x:<bytes>           → ok h:<text> | err UnicodeError
+  c17 info                                 → ok h:<asgiParseEncoding> h:<asgiParseErrors> <asgiParseDefault 0|1>
+                                             (the extracted `encoding=` / `errors=` arguments of asgi.py's parse_qs call)
   c17 req h:<method> h:<PATH_INFO|-> h:<target> x:<query bytes> <acc> <ae> x:<accept name> x:<accept-encoding name>
-          <others> <ptable> <pbytes> <d>
+          <others> <ptable> <palt> <pbytes> <d>
         acc, ae : `-` (no such field line) or `;`-list of x: values (one per field line, raw bytes)
         others  : `;`-list of  x:name>x:value  put before the Accept lines (`.` for none)
         ptable  : parse_qs on str, as a table:  `;`-list of  h:<query>=<dict>  with dict = `.` or `&`-list of h:key>h:v1,h:v2 ;
                   it must contain the latin-1 text of the query bytes and `urlQuery target` (else `err parse-miss`)
+        palt    : the same kind of table for parse_qs with the extracted encoding= / errors= arguments (only looked up when
+                  asgi.py passes non-default ones)
         pbytes  : what parse_qs returned for the bytes query string: `;`-list of  x:key>x:v1,x:v2, or `!` = it raised
                   UnicodeEncodeError / UnicodeDecodeError   (only reached when asgi.py does not decode the query string)
         d       : disable_compression 0|1 (WSGI/ASGI; MetricsHandler has no such switch)
@@ -126,7 +130,7 @@ def wsgiValue : Option (List Bytes) → Option Str
   | some vs => some (joinWith [','] (vs.map latin1))
 
 def handleReq (method : Str) (pathInfo : Option Str) (target : Str) (qs : Bytes) (acc ae : Option (List Bytes))
-    (an aen : Bytes) (others : List (Bytes × Bytes)) (ptable : List (Str × List (Str × List Str)))
+    (an aen : Bytes) (others : List (Bytes × Bytes)) (ptable palt : List (Str × List (Str × List Str)))
     (pbytes : PyM (List (Bytes × List Bytes))) (d : Bool) : String :=
   match ptable.lookup (latin1 qs), ptable.lookup (urlQuery target) with
   | some _, some _ =>
@@ -136,7 +140,7 @@ def handleReq (method : Str) (pathInfo : Option Str) (target : Str) (qs : Bytes)
     let w := match wsgiApp env parseQs d environ with
       | .ok r => encResp r
       | .error e => "err:" ++ e.name
-    let a := match asgiApp env parseQs (fun _ => pbytes) d ⟨fields, some qs⟩ with
+    let a := match asgiApp env parseQs (fun q => (palt.lookup q).getD []) (fun _ => pbytes) d ⟨fields, some qs⟩ with
       | .ok r => encResp r
       | .error e => "err:" ++ e.name
     let h := encResp (handlerGet env parseQs ⟨fields.map fun f => (latin1 f.1, latin1 f.2), target⟩)
@@ -177,12 +181,14 @@ def handle : List String → String
       | .ok t => "ok " ++ encText t
       | .error e => "err " ++ e.name
     | _, _ => "err bad-field"
-  | ["req", m, p, t, qs, acc, ae, an, aen, oth, pt, pb, d] =>
+  | ["info"] =>
+    s!"ok {encText Generated.Http.asgiParseEncoding} {encText Generated.Http.asgiParseErrors} {b01 Generated.Http.asgiParseDefault}"
+  | ["req", m, p, t, qs, acc, ae, an, aen, oth, pt, pa, pb, d] =>
     match decText m, optText p, decText t, decBytes qs, decOptBytesList acc, decOptBytesList ae, decBytes an, decBytes aen,
-      decBytePairs oth, decPTable pt, decPBytes pb with
-    | some m, some p, some t, some qs, some acc, some ae, some an, some aen, some oth, some pt, some pb =>
-      handleReq m p t qs acc ae an aen oth pt pb (d = "1")
-    | _, _, _, _, _, _, _, _, _, _, _ => "err bad-field"
+      decBytePairs oth, decPTable pt, decPTable pa, decPBytes pb with
+    | some m, some p, some t, some qs, some acc, some ae, some an, some aen, some oth, some pt, some pa, some pb =>
+      handleReq m p t qs acc ae an aen oth pt pa pb (d = "1")
+    | _, _, _, _, _, _, _, _, _, _, _, _ => "err bad-field"
   | _ => "err bad-op"
 
 end PromVerif.Drv.C17
